@@ -1941,7 +1941,10 @@ fn parse_expr_unchecked(
             // Forbid sizeof() on untyped literals
             let ty_nomod = context.module.type_registry.remove_modifier(ty);
             if let Some(scalar) = context.module.type_registry.extract_scalar(ty_nomod)
-                && scalar == ir::ScalarType::IntLiteral
+                && matches!(
+                    scalar,
+                    ir::ScalarType::IntLiteral | ir::ScalarType::FloatLiteral
+                )
             {
                 return Err(TyperError::SizeOfHasLiteralType(ty, loc));
             }
